@@ -198,6 +198,7 @@ fn anchors() {
 }
 
 pub fn run(ctx: &Ctx) {
+    ctx.enable_trace_pass(ctx.tier.pick(20000u64, 200000u64));
     ctx.set_rule("encode side: case = message of U, compared byte for byte with the reference encoding; decode side: case = (byte string, storage mode), compared with the reference decoder's verdict class, fields and consumed length; a state is a distinct case by hash; non-trivial = the reference verdict is not 'incomplete' or the input has more than 3 bytes");
     ctx.assume("the reference codec (refmodel.rs) is written from the AUTOSAR PRS layout; its own consistency is checked on every message of U (decode(encode(m)) == m) and on two documented example messages; control payload modelled as first byte + rest; TRAI carries no data; a network-trace payload is the list of its raw-data arguments");
     ctx.assume("error variants and texts are not compared, only the class message / incomplete / reject");
@@ -244,7 +245,7 @@ pub fn run(ctx: &Ctx) {
         ctx.run_family(Family::new("c02.dec.prefix_sweep", prefix_sweep_size(ctx.tier), format!("{} (LEN low bytes {:02x?})", PREFIX_SWEEP_ABOUT, lows), move |i, loc| {
             loc.input_hash_override = Some(i);
             with_prefix_sweep_case(i, tier, lows, |input, mode| judge_decode(input, mode, loc));
-        }).distinct());
+        }).distinct().trace(3000));
     }
     // history: the verdict on b must not depend on what was parsed before (caches, memo tables,
     // thread-local scratch state): for all ordered pairs (a, b) over a diverse input set, parse a,
